@@ -4,6 +4,7 @@
 //@harness p3_shard_seeds_3_nojr | bounded(3 aggregators, no joint randomness, empty measurement vector) | same contract (the "third helper")
 //@harness p3_shard_seeds_2_jr | bounded(2 aggregators, joint randomness, empty measurement vector) | same contract, blinds interleaved with seeds
 //@harness p3_shard_seeds_3_jr | bounded(3 aggregators, joint randomness, empty measurement vector) | same contract
+//@harness p3_shard_seeds_5_jr | bounded(5 aggregators, joint randomness, empty measurement vector) | same contract: helpers 1..4 (the fifth aggregator included) hold verbatim randomness
 //@harness p3_shard_leader_mask_2 | bounded(2 aggregators, input_len 1) | leader measurement share == encode(m) - sum of helper streams and proof share == proof - sum of helper proof streams (mask independent of m)
 //@harness p3_shard_leader_mask_3_jr | bounded(3 aggregators, joint randomness, input_len 1) | same, with joint randomness
 #[cfg(kani)]
@@ -34,7 +35,7 @@ mod verif_c17_prio3 {
                 vdaf.typ.input_len = il; vdaf.typ.proof_len = il; vdaf.typ.prove_rand_len = 1; vdaf.typ.output_len = il;
                 let m = any64();
                 unsafe { ENC_MEAS = raw64(m); STREAM_BYTE0 = 1; }      // every expanded element is the field element 1
-                let random: [u8; 96] = kani::any();
+                let random: [u8; 192] = kani::any();
                 let rs = vdaf.random_size();
                 let r = vdaf.shard_with_random(b"c", &0u8, &[7u8; 16], &random[..rs]);
                 match &r {
@@ -43,7 +44,7 @@ mod verif_c17_prio3 {
                         // helpers: seeds verbatim, in the order the randomness is consumed
                         let stride = if jr == 0 { 1 } else { 2 };
                         let mut j = 1;
-                        while j < 3 {
+                        while j < 6 {
                             if j < na as usize {
                                 match &shares[j] {
                                     Prio3InputShare::Helper { meas_and_proofs_share, joint_rand_blind } => {
@@ -62,7 +63,7 @@ mod verif_c17_prio3 {
                                 if il == 1 {
                                     // leader = encode(m) - (na-1) * 1 ; proof share = 0 - (na-1) * 1
                                     let mut want = m; let mut wantp = Field64::zero();
-                                    let mut k = 1; while k < 3 { if k < na as usize { want -= Field64::one(); wantp -= Field64::one(); } k += 1; }
+                                    let mut k = 1; while k < 6 { if k < na as usize { want -= Field64::one(); wantp -= Field64::one(); } k += 1; }
                                     assert!(raw64(measurement_share[0]) == raw64(want));
                                     assert!(raw64(proofs_share[0]) == raw64(wantp));
                                 }
@@ -84,4 +85,5 @@ mod verif_c17_prio3 {
     shard_h!(p3_shard_seeds_3_jr, 3, 1, 0);
     shard_h!(p3_shard_leader_mask_2, 2, 0, 1);
     shard_h!(p3_shard_leader_mask_3_jr, 3, 1, 1);
+    shard_h!(p3_shard_seeds_5_jr, 5, 1, 0);
 }
